@@ -487,6 +487,12 @@ pub fn scenarios(prop: &str, thorough: bool) -> Vec<Scenario> {
                 }
             }
         }
+        "C09" => {
+            // the sequentially consistent monitors of C09 (no two runs overlap; a matcher scratch
+            // slot is only ever used by one pool thread, and only by pool threads) are evaluated in
+            // every execution of the C06 families with two worker threads
+            v.extend(scenarios("C06", thorough).into_iter().filter(|s| s.pool_threads == 2 || s.name.starts_with("H/")));
+        }
         "C20" => {
             let ops: Vec<UOp> = vec![
                 UOp::TakeHandle,
@@ -549,7 +555,7 @@ pub fn scenarios(prop: &str, thorough: bool) -> Vec<Scenario> {
         s.bound = match (prop, thorough) {
             ("C13", false) => 1,
             ("C13", true) => 2,
-            ("C20", _) => 0,
+            ("C20", _) | ("C09", _) => 0,
             ("C11", false) | ("C07", false) => {
                 if small {
                     1
@@ -943,4 +949,23 @@ pub fn replay(prop: &str, file: &str) -> ! {
         }
     }
     std::process::exit(if failed > 0 { 1 } else { 0 })
+}
+
+
+/// Child mode for the C09 check (the loom parent merges this): runs the scheduler scenarios and
+/// prints what the C09 monitors found.
+pub fn c09_e2_child(tier: &str) -> ! {
+    let mut rep = Report::new("C09", tier);
+    collect("C09", tier, &mut rep);
+    let viols: Vec<Value> = rep
+        .acc
+        .violations
+        .iter()
+        .map(|(sig, c)| json!({"sig": sig, "what": c.what, "count": c.count, "examples": c.examples}))
+        .collect();
+    println!(
+        "{}",
+        json!({"executions": rep.acc.evaluations, "transitions": rep.acc.transitions, "nontrivial": rep.acc.nontrivial, "violations": viols, "bound": rep.bound, "caps": rep.caps})
+    );
+    std::process::exit(0)
 }
